@@ -177,12 +177,16 @@ def _full(mod, ctx, a) -> int:
         _collect(mod, ctx)
 
     # generator floors
+    # (a run that found violations reports them: a broken tree can be the very reason a class never occurs,
+    #  e.g. "Jacobian invoked" when every call of the Jacobian crashes)
     if hasattr(mod, "floors"):
         complaints = mod.floors(ctx)
-        if complaints:
+        if complaints and not ctx.buckets:
             ctx.write_evidence(mod, 0)
             raise core.HarnessError("generator degenerate: " + "; ".join(complaints))
-    if len(ctx.nontrivial) < 2:
+        if complaints:
+            print(f"note: generator floors not met in this run ({'; '.join(complaints)[:300]})")
+    if len(ctx.nontrivial) < 2 and not ctx.buckets:
         ctx.write_evidence(mod, 0)
         raise core.HarnessError("fewer than 2 distinct non-trivial cases")
 
